@@ -163,6 +163,61 @@ func c14Step(x *engine.Exec) []engine.Failure {
 	return out
 }
 
+// c14JailStep: full-pipeline variant of the "a weight change settles every validator first" oracle, for validators that
+// left the active set (jailed / unbonding) with module rewards still pending in x/distribution.
+func c14JailStep(x *engine.Exec) []engine.Failure {
+	if x.Res.Rejected {
+		return nil
+	}
+	prev, next := x.Prev.Snap(), x.Next.Snap()
+	var out []engine.Failure
+	changed := false
+	for _, den := range prev.Denoms {
+		if !prev.Assets[den].RewardWeight.Equal(next.Assets[den].RewardWeight) {
+			changed = true
+		}
+	}
+	if x.Op.K == world.KJail {
+		x.Cnt.Inc("validator.jailed")
+	}
+	if !changed {
+		return assetPredicate(next)
+	}
+	x.Cnt.Inc("weight_change")
+	if x.Op.K == world.KBlock && prev.Fee.AmountOf(rewardDenom).IsPositive() {
+		// the BeginBlock half of this block transition allocates the fee collector's coins AFTER the weight change of its
+		// EndBlock half: what is pending afterwards is new, not unsettled
+		x.Cnt.Inc("weight_change.in_block_followed_by_allocation_skipped")
+		return assetPredicate(next)
+	}
+	st := nodeStake(x.Next)
+	for v := range x.W.Vals {
+		staked := false
+		for _, p := range next.Pos {
+			if p.V == v {
+				staked = true
+			}
+		}
+		if !staked {
+			continue
+		}
+		before := modulePending(x.W, x.Prev.Ctx, v)
+		after := modulePending(x.W, x.Next.Ctx, v)
+		if b := before[rewardDenom]; b != nil && b.Cmp(ratI(1)) >= 0 {
+			x.Cnt.Inc("weight_change.with_rewards_pending_in_distribution")
+			if !st.Bonded[v] {
+				x.Cnt.Inc("weight_change.with_rewards_pending_for_non_bonded_validator")
+			}
+		}
+		for den, amt := range after {
+			if amt.Cmp(ratI(1)) >= 0 {
+				out = append(out, fail("non-retroactive", "unsettled-at-weight-change", "%s changed a reward weight while %s %s of module rewards for v%d (bonded=%v) were still pending in x/distribution: they will be split with the new weights", x.Op.String(), world.RatF(amt), den, v, st.Bonded[v]))
+			}
+		}
+	}
+	return append(out, assetPredicate(next)...)
+}
+
 func c14Config() world.Config {
 	cfg := world.DefaultConfig()
 	cfg.Assets = []world.AssetCfg{
@@ -215,19 +270,49 @@ func init() {
 				}
 				return ops
 			}
+			// second seed: every position has already claimed once (its reward history has entries), so that claims after a
+			// weight change walk the snapshot path with existing indices
+			claimed := append(append([]world.Op{}, seed...), opReward(rewardDenom, "1000003"),
+				world.Op{K: world.KClaim, D: 0, V: 0, Denom: "aaa"}, world.Op{K: world.KClaim, D: 1, V: 0, Denom: "bbb"},
+				world.Op{K: world.KClaim, D: 1, V: 1, Denom: "aaa"}, world.Op{K: world.KClaim, D: 2, V: 0, Denom: "ddd"}, opBlock(1))
 			mk := func(name string, budgets []int, depth int) *engine.Scenario {
 				return &engine.Scenario{
 					Property: "C14", Name: name, Cfg: c14Config(), Stores: world.ModuleStores,
-					Seeds: [][]world.Op{seed}, ClassNames: classNames, Budgets: budgets, MaxDepth: depth,
+					Seeds: [][]world.Op{seed, claimed}, ClassNames: classNames, Budgets: budgets, MaxDepth: depth,
 					NewRef: func(w *world.World, root *engine.Node) engine.Ref { return newRewRef() },
 					Ops:    ops, Step: c14Step, SeedStep: true,
 					Required: []string{"decay.single_interval", "decay.multi_interval", "decay.sub_interval", "decay.clamped_to_min", "decay.two_assets_same_block", "gov.weight_changed", "weight_change.with_rewards_pending_in_distribution", "claim.with_positive_entitlement", "asset.left_warmup", "gov.decay_switched_on_from_rate_1_with_interval"},
 				}
 			}
-			if tier == "thorough" {
-				return []*engine.Scenario{mk("c14-lifecycle", []int{2, 0, 2, 4, 2}, 9)}
+			// full-pipeline scenario: a validator with two assets is jailed while rewards are pending, then a weight changes
+			jcfg := world.DefaultConfig()
+			jcfg.FullPipeline = true
+			jcfg.Assets = []world.AssetCfg{
+				{Denom: "aaa", Weight: "1", Min: "0", Max: "5", TakeRate: "0"},
+				{Denom: "bbb", Weight: "1", Min: "0", Max: "5", TakeRate: "0", ChangeRate: "0.5", ChangeInterval: 6 * U},
 			}
-			return []*engine.Scenario{mk("c14-lifecycle", []int{2, 0, 1, 3, 1}, 6)}
+			jseed := []world.Op{opDel(0, 0, "aaa", "1000000"), opDel(1, 0, "bbb", "1000000"), opDel(1, 1, "aaa", "500000"), opBlock(1)}
+			jops := func(n *engine.Node) []world.Op {
+				var ops []world.Op
+				if atBlockStart(n) {
+					ops = append(ops, world.Op{K: world.KReward, Denom: rewardDenom, Amt: "9000003", Class: ClsEnv})
+				}
+				ops = append(ops, world.Op{K: world.KJail, V: 0, Class: ClsEnv}, world.Op{K: world.KUnjail, V: 0, Class: ClsEnv})
+				ops = append(ops, world.Op{K: world.KGovUpdate, Denom: "aaa", Class: ClsGov, Args: govArgs("authority", "4", "0,5", "0", "1", 0, false)})
+				ops = append(ops, world.Op{K: world.KClaim, D: 0, V: 0, Denom: "aaa", Class: ClsUser})
+				ops = append(ops, world.Op{K: world.KBlock, Dt: int64(U), Class: ClsBlock}, world.Op{K: world.KBlock, Dt: int64(3 * U), Class: ClsBlock})
+				return ops
+			}
+			jail := &engine.Scenario{
+				Property: "C14", Name: "c14-jailed-validator", Cfg: jcfg, Stores: world.AllStores,
+				Seeds: [][]world.Op{jseed}, ClassNames: classNames, Budgets: tierPick(tier, []int{1, 0, 2, 3, 1}, []int{1, 0, 3, 4, 1}), MaxDepth: tierPick(tier, 6, 8),
+				Ops: jops, Step: c14JailStep,
+				Required: []string{"weight_change", "validator.jailed", "weight_change.with_rewards_pending_for_non_bonded_validator"},
+			}
+			if tier == "thorough" {
+				return []*engine.Scenario{mk("c14-lifecycle", []int{2, 0, 2, 4, 2}, 9), jail}
+			}
+			return []*engine.Scenario{mk("c14-lifecycle", []int{2, 0, 1, 3, 1}, 5), jail}
 		},
 		Assumptions: []string{
 			"assets: aaa decays x0.5 every 1u in (0,5); bbb decays x0.9 every 2u in (1.5,2); ccc warms up until +4u on range (1,1); governance changes weight, rate (0.5/1/1.5), interval (0/1u/2u) and range; block steps 1u/2u/3u/7u",
